@@ -6,6 +6,9 @@ executable Spec predicates the oracle evaluates on the implementation's yields (
 import OFV.Proofs.C18PairBetween
 import OFV.Proofs.C18PairWithin
 import OFV.Proofs.C18Padding
+import OFV.Proofs.C18Cover
+import OFV.Proofs.C18Binary
+import OFV.Proofs.C18Tpb
 
 namespace OFV.C18
 open OFV.Model.C18 OFV.Spec.C18 OFV.Proofs.C18
@@ -50,6 +53,28 @@ example : (pairWithin [some 5, some 6, some 7, some 8, some 9]).all
     (isMatchingOf [some 5, some 6, some 7, some 8, some 9] 1) = true :=
   (pair_within_matching _ (by decide) (by decide)).2
 
+/-- `pair_within`, every list length: the yields are perfect matchings and together they contain
+every unordered pair of labels (the full statement of the property for `pair_within`).  The proof
+aligns the bare labels of the two recursive halves through a parametricity argument
+(`pairWithinAux_rel`): the pairs skipped by the start offset of `pair_between` are exactly the
+pairs of bare labels produced by the `zip` loop. -/
+theorem pair_within_spec (labels : List L) (hnd : labels.Nodup) (hnone : none ∉ labels) :
+    pairWithinOk labels (pairWithin labels) = true := by
+  simp only [pairWithinOk, Bool.and_eq_true]
+  refine ⟨(pair_within_matching labels hnd hnone).2, ?_⟩
+  simp only [coversPairs, List.all_eq_true, Bool.or_eq_true, beq_iff_eq, List.any_eq_true]
+  intro a ha b hb
+  by_cases hab : a = b
+  · exact Or.inl hab
+  · obtain ⟨p, hp, h⟩ := pairWithin_covers labels hnd hnone a ha b hb hab
+    refine Or.inr ⟨p, hp, ?_⟩
+    simp only [hasPair, Bool.or_eq_true, List.contains_iff_mem]
+    exact h
+
+example : pairWithinOk [some 1, some 2, some 3, some 4, some 5, some 6]
+    (pairWithin [some 1, some 2, some 3, some 4, some 5, some 6]) = true :=
+  pair_within_spec _ (by decide) (by decide)
+
 /-- `_get_padding`: the result is the smallest `L' ≥ bin_size` that has no divisor in
 `[2, num_bins - 1)`; the `while True` search terminates (Bertrand's postulate bounds the Model's fuel). -/
 theorem get_padding_spec (numBins binSize : Nat) :
@@ -64,5 +89,40 @@ theorem get_padding_spec (numBins binSize : Nat) :
   · exact Or.inr (h3 t (by omega) ht)
 
 example : getPadding 8 8 = 11 := by decide
+
+/-- `binary_partition_iterator` (default number of iterations), every list length ≥ 2: every yield is a
+2-partition of the qubits and every pair of qubits is split by at least one yield — the distance of two
+unsplit positions doubles with every divide-and-riffle step, and `2^⌈log₂ n⌉ ≥ n`. -/
+theorem binary_partition_spec (l : List Nat) (hnd : l.Nodup) (h2 : 2 ≤ l.length) :
+    ∃ ys, binaryPartition l none = some ys ∧ splitsAll l 2 (ys.map (fun p => [p.1, p.2])) = true :=
+  OFV.Proofs.C18Binary.binaryPartition_spec l hnd h2
+
+example : ∃ ys, binaryPartition [4, 7, 1, 9, 3] none = some ys ∧
+    splitsAll [4, 7, 1, 9, 3] 2 (ys.map (fun p => [p.1, p.2])) = true :=
+  binary_partition_spec _ (by decide) (by decide)
+
+/-- `group_into_tensor_product_basis_sets`, for **every** sequence of shuffles that lists each current
+basis at least once (in particular every sequence of genuine permutations, whatever the seed): the
+returned dictionary has pairwise distinct keys, each key is a tensor-product basis (one Pauli per qubit,
+sorted), every term of a group is diagonal in the basis named by its key, and the groups' non-zero
+terms are exactly the operator's non-zero terms with their coefficients (a partition that sums back to
+the operator).  Hypotheses: the terms are distinct canonical Pauli words and every non-zero
+coefficient is above the `+=` deletion tolerance (exact regime). -/
+theorem tpb_groups_spec (tol : Rat) (op : Model.Op) (perms : List (List Nat))
+    (hnd : (op.map (·.1)).Nodup) (hb : ∀ tc ∈ op, isBasis tc.1 = true)
+    (hc : ∀ tc ∈ op, tc.2 ≠ 0 → GQ.isSmall tol tc.2 = false)
+    (hp : OFV.Proofs.C18Tpb.PermsCover tol [] op perms) :
+    tpbOk op (groupTPB tol op perms) = true :=
+  OFV.Proofs.C18Tpb.groupTPB_ok tol op perms hnd hb hc hp
+
+example : tpbOk [([(0, 1)], 1), ([(0, 3)], 1), ([(0, 1), (1, 2)], 1), ([(1, 3)], 1)]
+    (groupTPB GQ.eqTol [([(0, 1)], 1), ([(0, 3)], 1), ([(0, 1), (1, 2)], 1), ([(1, 3)], 1)]
+      [[0, 1, 2, 3], [3, 0, 2, 1], [1, 0, 3, 2], [2, 3, 0, 1]]) = true :=
+  tpb_groups_spec _ _ _ (by decide) (by decide)
+    (by
+      intro tc h _
+      simp only [List.mem_cons, List.not_mem_nil, or_false] at h
+      rcases h with rfl | rfl | rfl | rfl <;> exact OFV.Proofs.C18Tpb.one_not_small)
+    (OFV.Proofs.C18Tpb.permsCover_of_full _ 4 _ _ _ (by decide) (by decide))
 
 end OFV.C18
